@@ -118,7 +118,7 @@ def run(ctx):
         t = "(%s)" % to_case(o)
         # unary numbers make the long length-level runs expensive: weigh them
         w = len(t) + (o.get("lenp", 0) // 2 if o["kind"] == "direct" else 0)
-        if cur and (size + w > 300000 or len(cur) >= 250):
+        if cur and (size + w > 200000 or len(cur) >= 200):
             shards.append(cur)
             cur, size = [], 0
         cur.append((i, t))
@@ -126,7 +126,7 @@ def run(ctx):
     if cur:
         shards.append(cur)
     texts = [HEADER % ";\n  ".join(t for _, t in sh) for sh in shards]
-    res = ctx.coq_eval_shards("C11_cases", texts, ["M", "P"])
+    res = ctx.coq_eval_shards("C11_cases", texts, ["M", "P"], workers=12)
     nm = 0
     kinds = {}
     for o in obs:
